@@ -289,7 +289,7 @@ def cov_from_api(runs):
 # per-property configuration of engine A: list of (flavour, alphabet, oracles, quick depth, thorough depth)
 API_CHECKS = {
     "C05": [("plain", "mut", "C05", 6, 9)],
-    "C06": [("plain", "frames", "C06", 6, 8)],
+    "C06": [("plain", "frames", "C06", 6, 8), ("plain", "c07", "C06", 5, 7)],
     "C07": [("plain", "c07", "C07", 6, 9)],
     "C08": [("plain", "frames", "C08", 6, 8)],
     "C09": [("plain", "params", "C09", 3, 4)],
@@ -313,6 +313,12 @@ def check_api(prop, tier, deadline):
                 rep.add(v["sig"], v["detail"], {"engine": "misc", "mode": "residue", "tier": tier, "input": v["case"]}, v["count"])
         for c in sweep["crashed"]:
             rep.add("crash/residue_sweep", "worker died on " + c, {"engine": "misc", "mode": "residue", "tier": tier, "input": c})
+    limits = None
+    if prop == "C10":   # refused declarations at the capacity limits (256th point, ...) must also leave the object unchanged
+        limits = run_misc("c17", "quick")
+        for v in limits["violations"]:
+            if v["sig"].startswith("C10|"):
+                rep.add(v["sig"][4:], v["detail"], {"engine": "misc", "mode": "c17", "tier": "quick", "input": v["case"]}, v["count"])
     if prop == "C09":
         table = run_misc("setters", tier)
         for v in table["violations"]:
@@ -324,6 +330,8 @@ def check_api(prop, tier, deadline):
         runs.append(d)
         shutil.rmtree(d["_scratch"], ignore_errors=True)
     rep.coverage = cov_from_api(runs)
+    if limits:
+        rep.coverage["refused_calls_at_capacity_limits"] = {"cases": limits["done"]}
     if sweep:
         rep.coverage["residue_sweep"] = {"objects": sweep["done"], "bases": sweep["bases"], "distinct_residues_of_section_length_mod_512": sweep["distinct_residues"], "samples": sweep["samples"],
                                          "rule": "filler parameters grow the parameter section one byte at a time over 1024 consecutive lengths per base object; each object saved, reference-decoded, reloaded, compared"}
@@ -495,7 +503,8 @@ def check_c17(tier, deadline):
     d = run_misc("c17", tier)
     log(f"[limits] cases={d['cases']} outcomes={d['outcomes']} {d['wall_s']}s")
     for v in d["violations"]:
-        rep.add(v["sig"], v["detail"], {"engine": "misc", "mode": "c17", "tier": tier, "input": v["case"]}, v["count"])
+        if not v["sig"].startswith("C10|"):
+            rep.add(v["sig"], v["detail"], {"engine": "misc", "mode": "c17", "tier": tier, "input": v["case"]}, v["count"])
     rep.coverage = {"evaluations": d["done"], "distinct_nontrivial": d["done"],
                     "rule": "for each capacity limit L (parameter description 255, parameter/group name 127, dimension entry 255, string length 255, string count 255, points 255, channels 255, "
                             "frames 32767, 16-bit integer extremes, parameter blocks 255, record next-offset 65535) content built through the API at L-1, L, L+1 and far beyond, alone (quick) and in all "
